@@ -502,3 +502,16 @@ def word_separator(ctx):
                     ctx.violate('mnemonic:' + q, 'the sentence is cut into words by `%s`' % norm(c)[:90], c,
                                 'after NFKD normalisation the ideographic space is a plain space: every Japanese sentence is rejected with "Unrecognised word" (to_entropy, to_seed, sanitize_mnemonic)')
     ctx.floor(n, 3, 'sentence splits')
+
+
+@PROP.obligation('C14.wordlist-fixed', canaries=[
+    mut.replace_stmt('mnemonic', 'Mnemonic.sanitize_mnemonic', "return ' '.join(words)", "self._wordlist = wordlist\nreturn ' '.join(words)", 'a sentence check re-languages the object'),
+])
+def wordlist_fixed(ctx):
+    """A Mnemonic object generates sentences from the word list it was constructed for. Whatever to_mnemonic / word / wordlist /
+    generate read from the object is written by the constructor only: no parsing or validating method (sanitize_mnemonic, to_entropy,
+    to_seed, detect_language ...) assigns, item-stores or mutates that state."""
+    from .common_effect import constructor_only_state as run
+    n = run(ctx, 'mnemonic', 'Mnemonic', ['to_mnemonic', 'word', 'wordlist', 'generate'],
+            'after the object has looked at a sentence in another language, to_mnemonic()/generate() return words of that language: not the BIP39 sentence of the list the object stands for')
+    ctx.floor(n, 1, 'attributes read by the generating methods')
